@@ -77,12 +77,15 @@ class V1MPM(MessageProcessingModel[V1EncodingResult, TV1SecModel]):
         decoded, _ = decode(whole_msg, enforce_type=Sequence)
         _, _, pdu = decoded
 
+        # Version and community must be verified before anything from the PDU
+        # (including an error-status) is acted upon.
+        msg = self.security_model.process_incoming_message(decoded, credentials)
+
         # Because PDUs are lazy, we need to trigger the readout of the PDU
         # value. Otherwise, any error-response is hidden, causing cryptic
         # errors.
         pdu.value
 
-        msg = self.security_model.process_incoming_message(decoded, credentials)
         return msg
 
 
